@@ -1,98 +1,157 @@
-(* SourceKernel — the word-level kernel of src/portable.rs, translated from the current source text on every run
-   (gen/SrcPortable.v) and interpreted by Facts/RustLite.v, is the hand-written model of Portable.v, function by
-   function, for every state, every argument, every build profile and every call depth the interpreter is given.
+(* SourceKernel — src/portable.rs (key schedule, update, permute, zipper merge, modular reduction, length injection and
+   rotation, remainder packing, data_to_lanes, update_remainder, finalize64/128/256 and the streaming append) and HashPacket
+   of src/internal.rs (len, is_empty, as_slice, inner, fill, set_to), translated from the current source text on every run
+   (gen/SrcPortable.v, gen/SrcPacket.v) and interpreted by Facts/RustLite.v, are the hand-written models Portable.v and
+   Packet.v, function by function, for every state, every argument, every data slice, every build profile and every call depth
+   the interpreter is given — and so are checkpoint and from_checkpoint.  No function is supplied to the interpreter from outside.
+   Not in the fragment: Default and the trait wrappers that forward to these functions.
    (Part of C01: the model C01 is proved about is, for these functions, what the source says today.) *)
 From Coq Require Import NArith List String Bool.
 From HW Require Import Word Packet Portable.
 From HW.Facts Require Import RustLite.
-From HWGen Require Import SrcPortable.
-From HW.Refine Require Import SourceTie.
+From HWGen Require Import SrcPortable SrcPacket.
+From HW.Refine Require Import SourceTie SourceTieFinal SourceTieAppend SourceTieCkpt.
 Import ListNotations.
 Local Open Scope N_scope.
 
-Notation call p b := (call_fn p (ext p b) src_fns).
-Notation flag_of b := (if is_empty b then 1%nat else 0%nat).
+Notation call p := (call_fn p noext all_fns).
 
-Theorem SRC_new : forall p b fuel c e k0 k1 k2 k3,
-  call p b (S fuel) "new" (genv_of c e) [VA [k0;k1;k2;k3]]
-  = Ok (genv_of (core (p_new (k0,k1,k2,k3))) e, [Some (VA [k0;k1;k2;k3])], None).
+Theorem SRC_new : forall p fuel c e k0 k1 k2 k3,
+  call p (S fuel) "new" (genv_of c e) [VA [k0;k1;k2;k3]]
+  = Ok (genv_of (core (p_new (k0,k1,k2,k3))) packet_default, [Some (VA [k0;k1;k2;k3])], None).
 Proof. exact new_ok. Qed.
 
-Theorem SRC_zipper_merge_and_add : forall p b fuel g x1 x0 l0 l1 l2 l3,
-  call p b (S fuel) "zipper_merge_and_add" g [VN x1; VN x0; VA [l0;l1;l2;l3]; VK 1%nat; VK 0%nat]
+Theorem SRC_zipper_merge_and_add : forall p fuel g x1 x0 l0 l1 l2 l3,
+  call p (S fuel) "zipper_merge_and_add" g [VN x1; VN x0; VA [l0;l1;l2;l3]; VK 1%nat; VK 0%nat]
   = Ok (g, [Some (VN x1); Some (VN x0); Some (VA [add64 l0 (zip_lo x1 x0); add64 l1 (zip_hi x1 x0); l2; l3]);
             Some (VK 1%nat); Some (VK 0%nat)], None) /\
-  call p b (S fuel) "zipper_merge_and_add" g [VN x1; VN x0; VA [l0;l1;l2;l3]; VK 3%nat; VK 2%nat]
+  call p (S fuel) "zipper_merge_and_add" g [VN x1; VN x0; VA [l0;l1;l2;l3]; VK 3%nat; VK 2%nat]
   = Ok (g, [Some (VN x1); Some (VN x0); Some (VA [l0; l1; add64 l2 (zip_lo x1 x0); add64 l3 (zip_hi x1 x0)]);
             Some (VK 3%nat); Some (VK 2%nat)], None).
 Proof. intros. split; [apply zipper_10 | apply zipper_32]. Qed.
 
-Theorem SRC_update : forall p b fuel c e x0 x1 x2 x3,
-  call p b (S (S fuel)) "update" (genv_of c e) [VA [x0;x1;x2;x3]]
+Theorem SRC_update : forall p fuel c e x0 x1 x2 x3,
+  call p (S (S fuel)) "update" (genv_of c e) [VA [x0;x1;x2;x3]]
   = Ok (genv_of (p_update c (x0,x1,x2,x3)) e, [Some (VA [x0;x1;x2;x3])], None).
 Proof. exact update_ok. Qed.
 
-Theorem SRC_permute : forall p b fuel g a0 a1 a2 a3,
-  call p b (S fuel) "permute" g [VA [a0;a1;a2;a3]]
+Theorem SRC_permute : forall p fuel g a0 a1 a2 a3,
+  call p (S fuel) "permute" g [VA [a0;a1;a2;a3]]
   = Ok (g, [Some (VA [a0;a1;a2;a3])], Some (VA (ll (p_permute (a0,a1,a2,a3))))).
 Proof. exact permute_ok. Qed.
 
-Theorem SRC_permute_and_update : forall p b fuel c e,
-  call p b (S (S (S fuel))) "permute_and_update" (genv_of c e) [] = Ok (genv_of (p_permute_and_update c) e, [], None).
+Theorem SRC_permute_and_update : forall p fuel c e,
+  call p (S (S (S fuel))) "permute_and_update" (genv_of c e) [] = Ok (genv_of (p_permute_and_update c) e, [], None).
 Proof. exact permute_and_update_ok. Qed.
 
-Theorem SRC_module_reduction : forall p b fuel g a3 a2 a1 a0,
-  call p b (S fuel) "module_reduction" g [VN a3; VN a2; VN a1; VN a0]
+Theorem SRC_module_reduction : forall p fuel g a3 a2 a1 a0,
+  call p (S fuel) "module_reduction" g [VN a3; VN a2; VN a1; VN a0]
   = Ok (g, [Some (VN a3); Some (VN a2); Some (VN a1); Some (VN a0)],
         Some (VT [fst (p_module_reduction a3 a2 a1 a0); snd (p_module_reduction a3 a2 a1 a0)])).
 Proof. exact module_reduction_ok. Qed.
 
 (* with the shift-amount / subtraction / addition checks of the build profile: equal as results, panics included *)
-Theorem SRC_rotate_32_by : forall p b fuel g count a0 a1 a2 a3,
-  call p b (S fuel) "rotate_32_by" g [VN count; VA [a0;a1;a2;a3]]
+Theorem SRC_rotate_32_by : forall p fuel g count a0 a1 a2 a3,
+  call p (S fuel) "rotate_32_by" g [VN count; VA [a0;a1;a2;a3]]
   = lift (p_rotate_32_by p count (a0,a1,a2,a3)) (fun l => (g, [Some (VN count); Some (VA (ll l))], None)).
 Proof. exact rotate_32_by_ok. Qed.
 
-Theorem SRC_update_lanes : forall p b fuel c e size,
-  call p b (S (S fuel)) "update_lanes" (genv_of c e) [VN size]
+Theorem SRC_update_lanes : forall p fuel c e size,
+  call p (S (S fuel)) "update_lanes" (genv_of c e) [VN size]
   = lift (p_update_lanes p size c) (fun c' => (genv_of c' e, [Some (VN size)], None)).
 Proof. exact update_lanes_ok. Qed.
 
 (* byte-level: for a slice of ANY length *)
-Theorem SRC_data_to_lanes : forall p b fuel g d,
-  call p b (S fuel) "data_to_lanes" g [VA d] = Ok (g, [Some (VA d)], Some (VA (ll (p_data_to_lanes d)))).
+Theorem SRC_data_to_lanes : forall p fuel g d,
+  call p (S fuel) "data_to_lanes" g [VA d] = Ok (g, [Some (VA d)], Some (VA (ll (p_data_to_lanes d)))).
 Proof. exact data_to_lanes_ok. Qed.
 
-Theorem SRC_remainder : forall p b fuel g bytes,
-  call p b (S fuel) "remainder" g [VA bytes] = lift (p_remainder p bytes) (fun r => (g, [Some (VA bytes)], Some (VA r))).
+Theorem SRC_remainder : forall p fuel g bytes,
+  call p (S fuel) "remainder" g [VA bytes] = lift (p_remainder p bytes) (fun r => (g, [Some (VA bytes)], Some (VA r))).
 Proof. exact remainder_ok. Qed.
 
-(* from here on the two HashPacket accessors (len / as_slice) are supplied by the hand-written model; the pending length is
-   assumed to fit a u64 (it is at most 32) *)
-Theorem SRC_update_remainder : forall p b, N.of_nat (plen b) <= M64 -> forall fuel c e,
-  call p b (S (S (S fuel))) "update_remainder" (genv_of c e) []
-  = lift (p_update_remainder p {| core := c; buffer := b |}) (fun c' => (genv_of c' e, [], None)).
+(* HashPacket: for every packet whose buf is the 32-byte array it is, every fill index (a usize: also values above 32,
+   which no safe sequence produces), every data slice *)
+Theorem SRC_packet : forall p fuel pk data, List.length (buf pk) = 32%nat ->
+  call p (S fuel) "buffer.len" (penv pk) [] = Ok (penv pk, [], Some (VN (N.of_nat (plen pk)))) /\
+  call p (S fuel) "buffer.is_empty" (penv pk) [] = Ok (penv pk, [], Some (VN (if is_empty pk then 1 else 0))) /\
+  call p (S fuel) "buffer.inner" (penv pk) [] = Ok (penv pk, [], Some (VA (inner pk))) /\
+  call p (S fuel) "buffer.as_slice" (penv pk) [] = plift (as_slice p pk) (fun sl => (penv pk, [], Some (VA sl))) /\
+  call p (S fuel) "buffer.set_to" (penv pk) [VA data]
+    = plift (set_to p pk data) (fun pk' => (penv pk', [Some (VA data)], None)) /\
+  call p (S fuel) "buffer.fill" (penv pk) [VA data]
+    = Ok (penv (fst (fill pk data)), [Some (VA data)], Some (VO (snd (fill pk data)))).
+Proof.
+  intros p fuel pk data H.
+  repeat match goal with |- _ /\ _ => split end;
+    [apply pkt_len_ok | apply pkt_is_empty_ok | apply pkt_inner_ok | apply pkt_as_slice_ok; exact H
+    | apply pkt_set_to_ok; exact H | apply pkt_fill_ok; exact H].
+Qed.
+
+(* wfp b: the pending buffer is a 32-byte array and its fill index fits a u64 *)
+Theorem SRC_update_remainder : forall p fuel c b, wfp b ->
+  call p (S (S (S fuel))) "update_remainder" (genv_of c b) []
+  = lift (p_update_remainder p {| core := c; buffer := b |}) (fun c' => (genv_of c' b, [], None)).
 Proof. exact update_remainder_ok. Qed.
 
-Theorem SRC_finalize : forall p b, N.of_nat (plen b) <= M64 -> forall fuel c e, e = flag_of b ->
-  ret_of (call p b (S (S (S (S (S fuel))))) "finalize64" (genv_of c e) [])
+Theorem SRC_finalize : forall p fuel c b, wfp b ->
+  ret_of (call p (S (S (S (S (S fuel))))) "finalize64" (genv_of c b) [])
     = lift_ret (p_finalize64 p {| core := c; buffer := b |}) VN /\
-  ret_of (call p b (S (S (S (S (S fuel))))) "finalize128" (genv_of c e) [])
+  ret_of (call p (S (S (S (S (S fuel))))) "finalize128" (genv_of c b) [])
     = lift_ret (p_finalize128 p {| core := c; buffer := b |}) (fun lh => VA [fst lh; snd lh]) /\
-  ret_of (call p b (S (S (S (S (S fuel))))) "finalize256" (genv_of c e) [])
+  ret_of (call p (S (S (S (S (S fuel))))) "finalize256" (genv_of c b) [])
     = lift_ret (p_finalize256 p {| core := c; buffer := b |}) (fun l => VA (ll l)).
 Proof.
-  intros p b Hb fuel c e E. split; [|split].
+  intros p fuel c b W. split; [|split].
   - apply finalize64_ok; assumption.
   - apply finalize128_ok; assumption.
   - apply finalize256_ok; assumption.
 Qed.
 
-(* non-vacuity, and an end-to-end run of the interpreter on the generated source: new(zero key) followed by
-   finalize64 with nothing pending is the published HighwayHash64 of the empty string under the zero key *)
+(* the streaming append: whole 32-byte chunks through update, the rest through HashPacket *)
+Theorem SRC_append : forall p fuel c b data, wfp b ->
+  call p (S (S (S (S fuel)))) "append" (genv_of c b) [VA data]
+  = lift (p_append p {| core := c; buffer := b |} data)
+         (fun s' => (genv_of (core s') (buffer s'), [Some (VA data)], None)).
+Proof. exact append_ok. Qed.
+
+(* checkpoint (the 164 bytes) and from_checkpoint (any 164 bytes: decode, then the pending bytes through append) *)
+Theorem SRC_checkpoint : forall p fuel c b, wfp b ->
+  ret_of' (call p (S (S fuel)) "checkpoint" (genv_of c b) []) = lift_ret' (p_checkpoint p {| core := c; buffer := b |}) VA.
+Proof. exact checkpoint_ok. Qed.
+
+Theorem SRC_from_checkpoint : forall p fuel c b data, List.length data = 164%nat ->
+  call p (S (S (S (S (S fuel))))) "from_checkpoint" (genv_of c b) [VA data]
+  = lift (p_from_checkpoint p data) (fun s' => (genv_of (core s') (buffer s'), [Some (VA data)], None)).
+Proof. exact from_checkpoint_ok. Qed.
+
+(* non-vacuity, and an end-to-end run of the interpreter on the generated source:  new(zero key), append of the 3 bytes
+   "abc" in two calls, finalize64 — evaluates to what the extracted model computes for the same history *)
 Example SRC_runs_the_source :
-  match call prof_dev packet_default 8 "new" (genv_of (core (p_new (9,9,9,9))) 1) [VA [0;0;0;0]] with
-  | Ok (g, _, _) => ret_of (call prof_dev packet_default 8 "finalize64" g [])
+  match call prof_dev 9 "new" (genv_of (core (p_new (9,9,9,9))) packet_default) [VA [0;0;0;0]] with
+  | Ok (g, _, _) =>
+      match call prof_dev 9 "append" g [VA [97; 98]] with
+      | Ok (g1, _, _) =>
+          match call prof_dev 9 "append" g1 [VA [99]] with
+          | Ok (g2, _, _) => ret_of (call prof_dev 9 "finalize64" g2 [])
+          | _ => Fault
+          end
+      | _ => Fault
+      end
+  | _ => Fault
+  end
+  = match p_append prof_dev (p_new (0,0,0,0)) [97; 98] with
+    | Ok s1 => match p_append prof_dev s1 [99] with
+               | Ok s2 => lift_ret (p_finalize64 prof_dev s2) VN
+               | _ => Fault
+               end
+    | _ => Fault
+    end.
+Proof. vm_compute. reflexivity. Qed.
+
+Example SRC_runs_empty :
+  match call prof_dev 9 "new" (genv_of (core (p_new (9,9,9,9))) packet_default) [VA [0;0;0;0]] with
+  | Ok (g, _, _) => ret_of (call prof_dev 9 "finalize64" g [])
   | _ => Fault
   end = Ok (Some (VN 0x7035da75b9d54469)).
 Proof. vm_compute. reflexivity. Qed.
@@ -107,5 +166,9 @@ Print Assumptions SRC_rotate_32_by.
 Print Assumptions SRC_update_lanes.
 Print Assumptions SRC_data_to_lanes.
 Print Assumptions SRC_remainder.
+Print Assumptions SRC_packet.
 Print Assumptions SRC_update_remainder.
 Print Assumptions SRC_finalize.
+Print Assumptions SRC_append.
+Print Assumptions SRC_checkpoint.
+Print Assumptions SRC_from_checkpoint.
